@@ -33,8 +33,18 @@ def _expand(args):
     for op in ops:
         st = st0 if first else machine.replay(hist)
         first = False
-        viols = machine.step(st, op)
-        viols = list(viols) + list(machine.invariants(st))
+        try:
+            viols = machine.step(st, op)
+            viols = list(viols) + list(machine.invariants(st))
+        except Exception as e:  # noqa - an exception of the code under test is a finding, not a harness failure
+            import traceback
+
+            tb = traceback.extract_tb(e.__traceback__)[-1]
+            viols = [{"clause": "exception", "signature": f"exception:{type(e).__name__}", "detail": f"{type(e).__name__}: {e} at {os.path.basename(tb.filename)}:{tb.lineno} during {op!r} after {list(hist)}"}]
+            for v in viols:
+                v.setdefault("instance", {"history": list(hist) + [op]})
+            out.append((op, ("<exception>", repr(hist), repr(op)), viols, None))
+            continue
         for v in viols:
             v.setdefault("instance", {"history": list(hist) + [op]})
         oc = machine.outcome(st, op) if hasattr(machine, "outcome") else None
